@@ -208,6 +208,59 @@ func oracles(o *corr.Out, sc *scenario, w *World) {
 		}
 		o.OracleOK("C01:send-reaches-wire")
 	}
+	// (1c) C05: a transport write that failed is reported by the call it belonged to
+	for i, a := range sc.acts {
+		if strings.HasPrefix(a, "w!") && a != "w!ok" {
+			sawErr := false
+			for _, kv := range strings.Split(field(sc.obs[i], "d="), ",") {
+				p := strings.SplitN(kv, "=", 2)
+				if len(p) == 2 && p[1] != "nil" && !strings.HasPrefix(p[1], "data:") {
+					sawErr = true
+				}
+			}
+			if !sawErr {
+				o.Oracle("C05:failed-write-reported", sc.request(), fmt.Sprintf("step %d: the parked transport write failed but no call returned an error: %s", i, sc.obs[i]))
+			} else {
+				o.OracleOK("C05:failed-write-reported")
+			}
+		}
+	}
+	// (1d) C01: what MsgRecv returns are the message payloads that were delivered, unaltered and in order
+	{
+		var payloads, got []string
+		for _, a := range sc.acts {
+			if f := strings.Split(a, "!"); len(f) == 3 && f[0] == "i" && strings.HasPrefix(f[2], "pkt:2:") {
+				pf := strings.Split(f[2], ":")
+				if pf[3] == "1" {
+					payloads = append(payloads, pf[4])
+				}
+			}
+		}
+		for _, ob := range sc.obs {
+			for _, kv := range strings.Split(field(ob, "d="), ",") {
+				p := strings.SplitN(kv, "=", 2)
+				if len(p) == 2 && strings.HasPrefix(p[1], "data:") {
+					got = append(got, p[1][5:])
+				}
+			}
+		}
+		j, bad := 0, ""
+		for _, g := range got {
+			for j < len(payloads) && payloads[j] != g {
+				j++
+			}
+			if j == len(payloads) {
+				bad = fmt.Sprintf("MsgRecv returned %s, which is not the next delivered payload (delivered: %v, received: %v)", g, payloads, got)
+				break
+			}
+			j++
+		}
+		if bad != "" {
+			o.Oracle("C01:recv-data-intact", sc.request(), bad)
+		} else {
+			o.OracleOK("C01:recv-data-intact")
+		}
+	}
 	// (2) per-step flags: ctx done iff finished; finished implies terminated; once set they stay set
 	pT, pF := false, false
 	for i, ob := range sc.obs {
@@ -299,7 +352,8 @@ func Run(o *corr.Out) {
 					cls = "recv"
 				}
 				pc := w.pendingClasses()
-				if (cls == "recv" && pc["recv"] >= 1) || (strings.HasPrefix(call, "pkt:2:") && pc["pktmsg"] >= 1) {
+				// one reader goroutine: no packet is handed over while HandlePacket of the previous one has not returned
+				if (cls == "recv" && pc["recv"] >= 1) || (strings.HasPrefix(call, "pkt:") && pc["pktmsg"]+pc["pktctl"] >= 1) {
 					continue
 				}
 				tid++
@@ -388,7 +442,7 @@ func Run(o *corr.Out) {
 				if cls == "recv" && pc["recv"] >= 1 {
 					continue
 				}
-				if cls == "pktmsg" && pc["pktmsg"] >= 1 {
+				if (cls == "pktmsg" || cls == "pktctl") && pc["pktmsg"]+pc["pktctl"] >= 1 {
 					continue
 				}
 				if cls == "sendcancel" && (nW > 0 || nMu > 0) && !parked {
